@@ -146,6 +146,20 @@ def mesh_in_mesh(item):
     return ok(bool(occs) and len(ss[1]) > 0)
 
 
+@check("C06.multi")
+def multi(item):
+    """big.contains(p1, ..., pk) reports that EVERY pi occurs in big, big.avoids(...) that none does: each must agree
+    with the occurrence listings of the single patterns (whose soundness C06.mesh_in_mesh checks), for k = 0, 1, 2, 3
+    and for plain mesh patterns as well as Bivincular / Vincular / Covincular instances."""
+    big, smalls = item
+    each = [bool(list(s.occurrences_in(big))) for s in smalls]
+    got = (big.contains(*smalls), big.avoids(*smalls))
+    want = (all(each), not any(each))
+    if got != want:
+        return bad(want, got, f"(contains(*patts), avoids(*patts)) vs the single listings {each}")
+    return ok(len(set(each)) == 2)
+
+
 @check("C06.perm_in_mesh")
 def perm_in_mesh(item):
     """A classical pattern inside a mesh pattern / a mesh pattern inside a classical one."""
@@ -219,6 +233,31 @@ def run(ctx):
     ctx.run("C06.mesh_in_mesh", pairs, chunk=20,
             rule="(small, big) pairs of mesh patterns (small <=2 points, big 2-3 points, dense shadings included); soundness of every reported occurrence "
                  "against all occurrences of big in all perms up to length 5/6; non-trivial = some occurrence reported and small is shaded")
+    # the smaller pattern as an instance of the bivincular subclasses (they override occurrences_in)
+    from permuta import BivincularPatt, CovincularPatt, VincularPatt
+    subcl = []
+    for t in [(), (0,), (0, 1), (1, 0), (0, 1, 2), (1, 0, 2)]:
+        k = len(t)
+        adj = [(), (0,), (k,), (1,)] + ([(0, k)] if k else []) + ([(1, 2)] if k >= 2 else [])
+        for I in dict.fromkeys(tuple(sorted(set(a for a in I_ if a <= k))) for I_ in adj):
+            subcl.append(VincularPatt(Perm(t), I))
+            subcl.append(CovincularPatt(Perm(t), I))
+            subcl.append(BivincularPatt(Perm(t), I, (0,) if k else ()))
+    sub_bigs = rng.sample(m2, 40 if quick else 200) + dense3[:: (12 if quick else 3)] + m3[:: (5 if quick else 2)] + [D.mesh(t, ()) for t in itertools.permutations(range(3))]
+    sub_pairs = [(s, b, tq) for s in subcl for b in sub_bigs if len(s) <= len(b)]
+    ctx.run("C06.mesh_in_mesh", sub_pairs, chunk=20,
+            rule=f"{len(subcl)} Vincular / Covincular / Bivincular instances (length <= 3) as the smaller pattern x {len(sub_bigs)} mesh patterns "
+                 "(incl. unshaded ones): same soundness check")
+    mpool = m01 + rng.sample(m2, 60) + subcl[::3]
+    multis = []
+    for b in rng.sample(m2, 30 if quick else 120) + dense3[:: (15 if quick else 4)] + [D.mesh(t, ()) for t in itertools.permutations(range(3))]:
+        multis.append((b, ()))
+        for _ in range(12 if quick else 40):
+            k = rng.choice((1, 2, 2, 3))
+            multis.append((b, tuple(rng.choice(mpool) for _ in range(k))))
+    ctx.run("C06.multi", multis, chunk=20,
+            rule="mesh patterns x seeded lists of 0-3 patterns (mesh and bivincular-type): contains(*patts) / avoids(*patts) vs the single "
+                 "occurrence listings; non-trivial = some listed pattern occurs and some does not")
     ctx.exhaustive = False
     pm = [(p, b, tq) for p in D.perms_upto(3) for b in rng.sample(m2 + dense3, 150 if quick else 800)]
     ctx.run("C06.perm_in_mesh", pm, chunk=20, rule="classical pattern inside mesh pattern")
